@@ -114,6 +114,12 @@ theorem quads_roundtrip (s : Bytes) : b64decodeQuads (b64encode s) = some s := b
     have hb := b.toNat_lt
     have hc := c.toNat_lt
     have ih := quads_roundtrip r
+    have e1 : UInt8.ofNat (a.toNat / 4 * 4 + (a.toNat % 4 * 16 + b.toNat / 16) / 16) = a :=
+      ofNat_toNat_id a _ (by omega)
+    have e2 : UInt8.ofNat ((a.toNat % 4 * 16 + b.toNat / 16) % 16 * 16 + (b.toNat % 16 * 4 + c.toNat / 64) / 4) = b :=
+      ofNat_toNat_id b _ (by omega)
+    have e3 : UInt8.ofNat ((b.toNat % 16 * 4 + c.toNat / 64) % 4 * 64 + c.toNat % 64) = c :=
+      ofNat_toNat_id c _ (by omega)
     cases hr : b64encode r with
     | nil =>
       simp only [b64encode, hr]
@@ -129,25 +135,14 @@ theorem quads_roundtrip (s : Bytes) : b64decodeQuads (b64encode s) = some s := b
       simp only [b64decodeQuads] at ih
       have hrn : r = [] := by simpa using ih.symm
       subst hrn
-      congr 2
-      · exact ofNat_toNat_id a _ (by omega)
-      · congr 1
-        · exact ofNat_toNat_id b _ (by omega)
-        · congr 1
-          exact ofNat_toNat_id c _ (by omega)
+      simp only [e1, e2, e3]
     | cons x xs =>
       simp only [b64encode, hr]
       rw [hr] at ih
       simp only [b64decodeQuads]
       rw [b64val_b64char _ (by omega), b64val_b64char _ (by omega), b64val_b64char _ (by omega),
         b64val_b64char _ (by omega)]
-      simp only [ih, Option.map_some]
-      congr 2
-      · exact ofNat_toNat_id a _ (by omega)
-      · congr 1
-        · exact ofNat_toNat_id b _ (by omega)
-        · congr 1
-          exact ofNat_toNat_id c _ (by omega)
+      simp only [ih, Option.map_some, e1, e2, e3]
 
 /-- **DecodeString ∘ EncodeToString = id** for every byte string. -/
 theorem b64_roundtrip (s : Bytes) : b64decode (b64encode s) = some s := by
